@@ -394,6 +394,21 @@ pub fn run(ctx: &mut Ctx) {
             )
             .await;
         }
+        // names whose answer lists a global address that cannot be reached first and a canary second: the failed attempt
+        // is the end of it - no other address of the answer is tried behind the policy's back
+        for (i, t) in targets.iter().enumerate() {
+            for (k, first) in ["[ff0e::1234]:443", "8.8.8.8:443", "[2606:4700:4700::1111]:443"].iter().enumerate() {
+                let name = format!("fallback{}x{}.verif.test", i, k);
+                let first: SocketAddr = first.parse().unwrap();
+                verif::hooks::STATE.lock().unwrap().resolver.insert(name.clone(), Ok(vec![SocketAddr::new(first.ip(), t.port()), *t]));
+                let _ = tokio::time::timeout(
+                    std::time::Duration::from_millis(700),
+                    verif::tcp_forwarder_connect(&core, verif::VTcpDestination::HostName(name, t.port())),
+                )
+                .await;
+                ctx.stat("canary_behind_failing_global_address");
+            }
+        }
         tokio::time::sleep(std::time::Duration::from_millis(100)).await;
         ctx.stat_add("canary_listeners", targets.len() as u64);
         ctx.stat_add("canary_spellings_tried", spellings.len() as u64 + targets.len() as u64);
